@@ -53,7 +53,13 @@ def _zconst(x):
             return _zconst(float(x))
     except ImportError:
         pass
+    if _is0d(x):  # 0-d array scalar that is not a numpy scalar (e.g. a concrete jax array element)
+        return _zconst(x.item())
     raise TypeError(f"cannot lift {type(x)} into z3")
+
+
+def _is0d(x):
+    return getattr(x, "shape", None) == () and hasattr(x, "dtype") and hasattr(x, "item") and not isinstance(x, (SymNum, SymBool))
 
 
 class _Inf(Exception):
@@ -336,7 +342,7 @@ def _isnp(o):
     try:
         import numpy as np
 
-        return isinstance(o, np.generic)
+        return isinstance(o, np.generic) or _is0d(o)
     except ImportError:
         return False
 
